@@ -20,5 +20,6 @@ TemplatesV ==
   { TSplit("*", "2-for-1", <<2, 0>>, One, FALSE), TSplit("*", "1-for-2", One, <<2, 0>>, TRUE),
     TSplit("Spouse", "3-for-2", <<3, 0>>, <<2, 0>>, FALSE), TSplit("", "1.0-for-4.0", One, <<4, 0>>, FALSE) }
 GapsV == {0, 45}
+SplitRatiosV == {<<2, 1>>, <<1, 2>>, <<3, 2>>, <<1, 3>>}
 OpeningsV == {<<>>, <<<<5, 0>>, <<37, 0>>>>}
 =============================================================================
